@@ -6,6 +6,7 @@ generic-path store on every run.
 import SwV.Model.C19
 import SwV.Spec.C19
 import SwV.Lemmas.C19
+import SwV.Gen.C19
 
 namespace SwV.Props.C19
 open SwV.Model.C19 SwV.Spec.C19 SwV.Lemmas.C19
@@ -298,5 +299,41 @@ theorem pagination_complete_model (k : Kind) (dk : Bytes) (db : Db) (r : Req) (h
 
 /-- non-vacuity: three names, limit 2, pattern `*` -/
 example : pages [[97], [97, 98], [98]] ⟨[], false, 2, [], [42], []⟩ 4 [] = [[97], [97, 98], [98]] := by decide +kernel
+
+/-! ### bridges to the regenerated source facts (T1) -/
+
+/-- the loop conditions the model transcribes are the ones in the source: stop at the first key without
+    the prefix, exclusive-start skip, limit test, the two refill loops and the generic filter loop -/
+theorem bridge_loop_conditions :
+    SwV.Gen.C19.stopCondLeveldb = "!bytes.HasPrefix(key, directoryPrefix)" ∧
+    SwV.Gen.C19.stopCondLeveldb2 = "!bytes.HasPrefix(key, directoryPrefix)" ∧
+    SwV.Gen.C19.stopCondLeveldb3 = "!bytes.HasPrefix(key, directoryPrefix)" ∧
+    SwV.Gen.C19.skipStartLeveldb = "fileName == startFileName && !includeStartFile" ∧
+    SwV.Gen.C19.skipStartLeveldb2 = "fileName == startFileName && !includeStartFile" ∧
+    SwV.Gen.C19.skipStartLeveldb3 = "fileName == startFileName && !includeStartFile" ∧
+    SwV.Gen.C19.limitCondLeveldb = "limit < 0" ∧
+    SwV.Gen.C19.missedLoopCond = "missedCount > 0 && err == nil" ∧
+    SwV.Gen.C19.expiredLoopCond = "expiredCount > 0 && err == nil" ∧
+    SwV.Gen.C19.prefixFilterLoopCond = "count < limit && len(notPrefixed) > 0" := by
+  decide
+
+/-- the functions the model transcribes are unchanged (source hashes; a source edit breaks this obligation) -/
+theorem bridge_pinned_sources :
+    SwV.Gen.C19.src_leveldb_ListDirectoryPrefixedEntries = "55c449cc448d5492" ∧
+    SwV.Gen.C19.src_leveldb2_ListDirectoryPrefixedEntries = "b73984763a9dab44" ∧
+    SwV.Gen.C19.src_leveldb3_ListDirectoryPrefixedEntries = "0f74e02cbce29af0" ∧
+    SwV.Gen.C19.src_leveldb_genDirectoryKeyPrefix = "2da9a70a6bf1b3c0" ∧
+    SwV.Gen.C19.src_leveldb_getNameFromKey = "548a39a2097fd1fe" ∧
+    SwV.Gen.C19.src_leveldb2_genDirectoryKeyPrefix = "c73927f75b8280fe" ∧
+    SwV.Gen.C19.src_leveldb3_genDirectoryKeyPrefix = "061269bdf0241cc2" ∧
+    SwV.Gen.C19.src_findDB = "3d0a7a5505f282f2" ∧
+    SwV.Gen.C19.src_prefixFilterEntries = "39c051133885193c" ∧
+    SwV.Gen.C19.src_wrapper_ListDirectoryPrefixedEntries = "e6f15774cc588814" ∧
+    SwV.Gen.C19.src_StreamListDirectoryEntries = "5df12bdf1ebaa2bb" ∧
+    SwV.Gen.C19.src_doListPatternMatchedEntries = "19b99b4533a3048c" ∧
+    SwV.Gen.C19.src_doListValidEntries = "ebb85eee918a1190" ∧
+    SwV.Gen.C19.src_doListDirectoryEntries = "8c89010a0f6ddc2d" ∧
+    SwV.Gen.C19.src_splitPattern = "21a04c190ee16b79" := by
+  decide
 
 end SwV.Props.C19
